@@ -274,6 +274,13 @@ func initInt8() {
 
 	Def(
 		c,
+		"to_int8",
+		func(_ *Thread, args []value.Value) (value.Value, value.Value) {
+			return args[0], value.Undefined
+		},
+	)
+	Def(
+		c,
 		"to_int",
 		func(_ *Thread, args []value.Value) (value.Value, value.Value) {
 			self := args[0].AsInt8()
